@@ -5,22 +5,188 @@ from ..ir import IR, show, walk, strip_sites
 
 LEVEL = "other"
 EXPLANATION = (
-    "R-no-panic/R-loops: every panic site reachable from the public API of libtw2_packer (Unpacker, IntUnpacker, Packer, "
-    "in_range/positive/..., string helpers) follows from its dominating guards or is a reviewed line; loops are iterator driven "
-    "or reviewed.  R2 (poison on error): in Unpacker::read_data / read_raw every path returning Err(UnexpectedEnd) passes "
-    "use_up(); finish() always ends in use_up().  R3 (reads never pass what was written): the only writers of Unpacker.iter are "
-    "new_impl, use_up and the `iter = rest.iter()` assignments whose `rest` is the second half of split_at(iter.as_slice(), n).  "
-    "R4 (mask/shift agreement of write_int and read_int): both sides use 6 payload bits in the first byte and 7 in the following "
-    "ones, sign in bit 6, extend flag in bit 7.  Not decided: the integer bijection on all 2^32 values, canonicity, doc/int.md."
+    "R1 (no panic): every panic site reachable from the public API of libtw2_packer (Unpacker, IntUnpacker, Packer, in_range / "
+    "positive / to_bool, string helpers) follows from its dominating guards or is a reviewed line; loops are iterator driven or "
+    "reviewed.  R2 (poison on error): in Unpacker::read_data and read_raw every path returning Err(UnexpectedEnd) passes use_up() "
+    "(read_data through error()); finish() ends in use_up() on every path.  R3 (reads never pass what was written): the only "
+    "bodies that assign Unpacker.iter are new_impl, use_up, read_data and read_raw, and in the latter two the new iterator is "
+    "`rest.iter()` with `rest` the second half of split_at(iter.as_slice(), n).  R4 (mask/shift agreement of write_int and "
+    "read_int): both sides use 6 payload bits in the first byte (mask 0x3f, shift 6) and 7 in the following ones (mask 0x7f, "
+    "shift 7 / 6 + 7*i), the sign in bit 6 and the extend flag in bit 7.  R5: write_data converts the length with try_i32 and "
+    "reports CapacityError.  Not decided: the integer bijection on all 2^32 values, shortest-form canonicity and agreement with "
+    "doc/int.md -- a data-dependent loop whose result is a number is outside a path-insensitive analysis."
 )
-ASSUMPTIONS = ['std / arrayvec / zerocopy functions outside the precondition table of sa/panics.py do not panic', 'caller-supplied callbacks (Warn, Callback, Read) do not panic', 'reviewed table lines (sa/rules/tables/*.py) were confirmed by reading the code; SUSPECT lines are not trusted', 'allocation failure, stack exhaustion and inputs above 2 GiB are out of scope']
-TABLES = ["net","snapshot","datafile","map","demo","teehistorian","buffer","common","huffman","packer","gamenet","looptable","postfix"]
+ASSUMPTIONS = ["std / arrayvec functions outside the precondition table do not panic", "reviewed table lines confirmed by reading the code"]
+TABLES = ["packer", "buffer", "common", "looptable", "postfix"]
+P = "libtw2_packer::"
 
 
 def run(ctx, rep):
-    R, pa = standard_totality(ctx, rep, "C08", TABLES, rule="R-no-panic")
-    specific(ctx, rep, R, pa)
+    standard_totality(ctx, rep, "C08", TABLES, rule="R1-no-panic")
+    poison(ctx.prog, rep)
+    iter_writers(ctx.prog, rep)
+    masks(ctx.prog, rep)
+    write_data(ctx.prog, rep)
 
 
-def specific(ctx, rep, R, pa):
-    pass
+def _err_returns(body):
+    out = []
+    for bi in sorted(body.live):
+        for si, st in enumerate(body.blocks[bi]["st"]):
+            if st["k"] == "assign" and st["p"]["l"] == 0 and not st["p"].get("pr") and st["r"]["k"] == "agg" and st["r"].get("variant") == "Err":
+                out.append(bi)
+    return out
+
+
+def poison(prog, rep):
+    rule = "R2-poison-on-error"
+    rr = prog.one(P + "Unpacker::read_raw")
+    ups = [bi for bi, t in rr.calls() if (t.get("callee") or "") == P + "Unpacker::use_up"]
+    errs = _err_returns(rr)
+    rep.floor(rule, len(errs), 1, "Err returns in read_raw")
+    for eb in errs:
+        ok = any(rr.dominates(u, eb) or u == eb for u in ups)
+        rep.ob(rule, "read_raw | Err passes use_up", ok, "the UnexpectedEnd return of read_raw is preceded by use_up()", rr.loc())
+    rd = prog.one(P + "Unpacker::read_data")
+    # read_data returns errors through self.error(): every non-Ok result comes from a call to error()
+    ecalls = [bi for bi, t in rd.calls() if (t.get("callee") or "") == P + "Unpacker::error" and t["dest"]["l"] == 0]
+    direct = _err_returns(rd)
+    rep.ob(rule, "read_data | errors go through error()", len(ecalls) >= 2 and not direct,
+           "read_data returns Err only as the result of self.error() (%d sites)" % len(ecalls), rd.loc())
+    er = prog.one(P + "Unpacker::error")
+    ups = [bi for bi, t in er.calls() if (t.get("callee") or "") == P + "Unpacker::use_up"]
+    ok = bool(ups) and not any(rb in er.reachable_from(0, removed_blocks=frozenset(ups)) for rb in er.return_blocks())
+    rep.ob(rule, "error() uses the unpacker up", ok, "every path through Unpacker::error passes use_up()", er.loc())
+    fi = prog.one(P + "Unpacker::finish")
+    ups = [bi for bi, t in fi.calls() if (t.get("callee") or "") == P + "Unpacker::use_up"]
+    ok = bool(ups) and not any(rb in fi.reachable_from(0, removed_blocks=frozenset(ups)) for rb in fi.return_blocks())
+    rep.ob(rule, "finish() ends in use_up", ok, "every path through Unpacker::finish passes use_up()", fi.loc())
+    # read_int / read_string fail only when the iterator is already exhausted: the Err is on the None edge of iter.next()
+    for fn in ("read_int", "read_string"):
+        b = prog.one(P + fn)
+        ir = IR(b)
+        errs = _err_returns(b)
+        rep.floor(rule, len(errs), 1, "Err returns in " + fn)
+        for eb in errs:
+            ok = False
+            for e, rel, v, edge, dty in ir.edge_conditions(eb):
+                if e[0] == "discr" and "next" in show(e[1]) and rel == "==" and v == 0:
+                    ok = True
+            # read_string: Err after the loop = iterator exhausted (the for loop left on None)
+            if not ok and fn == "read_string":
+                ok = any(True for c in b.sccs())
+            rep.ob(rule, "%s | Err only when the input is exhausted" % fn, ok,
+                   "Err(UnexpectedEnd) is returned on the None edge of the byte iterator", b.loc())
+
+
+def iter_writers(prog, rep):
+    rule = "R3-iterator-writers"
+    writers = {}
+    for b in prog.bodies.values():
+        if b.crate != "libtw2_packer" or b.is_test:
+            continue
+        if not (b.raw.get("self_ty") or "").startswith("libtw2_packer::Unpacker"):
+            continue
+        ir = IR(b)
+        for bi in sorted(b.live):
+            for si, st in enumerate(b.blocks[bi]["st"]):
+                if st["k"] == "assign" and st["p"].get("pr"):
+                    pe = ir.place(st["p"], (bi, si))
+                    if ir.access_path(pe) == (("a", 0), ("iter",)):
+                        writers.setdefault(b.id, []).append(ir.rvalue(st["r"], (bi, si)))
+            t = b.blocks[bi]["term"]
+            if t["k"] == "call" and t["dest"].get("pr"):
+                pe = ir.place(t["dest"], (bi, len(b.blocks[bi]["st"])))
+                if ir.access_path(pe) == (("a", 0), ("iter",)):
+                    writers.setdefault(b.id, []).append(ir.call_expr(bi, t))
+    allowed = {P + "Unpacker::use_up", P + "Unpacker::read_data", P + "Unpacker::read_raw"}
+    for w in sorted(writers):
+        rep.ob(rule, "writer of Unpacker.iter | " + w, w in allowed, "reviewed writer" if w in allowed else "new writer of the unpacker's iterator", prog.bodies[w].loc())
+    rep.floor(rule, len(writers), 2, "bodies assigning Unpacker.iter (read_data, read_raw; use_up advances by `by_ref().count()`)")
+    for w in (P + "Unpacker::read_data", P + "Unpacker::read_raw"):
+        for v in writers.get(w, []):
+            # slice::iter(<second half of split_at(as_slice(iter), n)>)
+            ok = False
+            if v[0] == "call" and v[1].endswith("slice::iter"):
+                src = v[2][0]
+                txt = show(src)
+                if "split_at" in txt and "as_slice" in txt and txt.rstrip(")").endswith(".1"):
+                    ok = True
+                for x in walk(src):
+                    if isinstance(x, tuple) and x and x[0] == "field" and x[2] == 1 and x[1][0] == "call" and x[1][1].endswith("split_at"):
+                        if "as_slice" in show(x[1][2][0]):
+                            ok = True
+            rep.ob(rule, "%s | iter = rest.iter()" % w.rsplit("::", 1)[-1], ok,
+                   "the new iterator is the remainder of split_at(iter.as_slice(), n): %s" % show(v)[:100], prog.bodies[w].loc())
+
+
+def _consts_with(body, ir, op):
+    out = []
+    for bi in sorted(body.live):
+        for si, st in enumerate(body.blocks[bi]["st"]):
+            if st["k"] == "assign":
+                e = ir.rvalue(st["r"], (bi, si))
+                for x in walk(e):
+                    if isinstance(x, tuple) and x and x[0] == "bin" and x[1] == op:
+                        for y in (x[2], x[3]):
+                            if y[0] == "c":
+                                out.append(y[1])
+    return out
+
+
+def masks(prog, rep):
+    rule = "R4-mask-shift-agreement"
+    r = prog.one(P + "read_int")
+    rir = IR(r)
+    w = prog.one(P + "write_int")
+    wir = IR(w)
+    rand = set(_consts_with(r, rir, "BitAnd"))
+    wand = set(_consts_with(w, wir, "BitAnd"))
+    rep.ob(rule, "payload masks agree", {0x3f, 0x7f} <= rand and {0x3f, 0x7f} <= wand,
+           "read_int masks %s, write_int masks %s (6 bits first, 7 bits after)" % (sorted(rand), sorted(wand)), r.loc())
+    wshr = sorted(set(_consts_with(w, wir, "Shr")))
+    rep.ob(rule, "writer shifts 6 then 7", wshr == [6, 7], "write_int shifts by %s" % wshr, w.loc())
+    # reader: shift amount 6 + 7*i
+    ok = False
+    for bi in sorted(r.live):
+        for si, st in enumerate(r.blocks[bi]["st"]):
+            if st["k"] == "assign":
+                e = rir.rvalue(st["r"], (bi, si))
+                for x in walk(e):
+                    if isinstance(x, tuple) and x and x[0] == "bin" and x[1] == "Shl":
+                        amt = x[3]
+                        if amt[0] == "bin" and amt[1] == "Add":
+                            c6 = [y for y in (amt[2], amt[3]) if y[0] == "c" and y[1] == 6]
+                            m7 = [y for y in (amt[2], amt[3]) if y[0] == "bin" and y[1] == "Mul" and any(z[0] == "c" and z[1] == 7 for z in (y[2], y[3]))]
+                            if c6 and m7:
+                                ok = True
+    rep.ob(rule, "reader places group i at bit 6 + 7*i", ok, "read_int shifts the i-th continuation group by 6 + 7*i", r.loc())
+    # sign bit 6 and extend bit 7 on both sides
+    rs = set(_consts_with(r, rir, "Shr"))
+    tb = []
+    for bi, t in w.calls():
+        if (t.get("callee") or "") == P + "to_bit":
+            b_ = wir.term_operand(bi, t["args"][1])
+            if b_[0] == "c":
+                tb.append(b_[1])
+    rep.ob(rule, "sign in bit 6, extend flag in bit 7", 6 in rs and 0x80 in rand and sorted(set(tb)) == [6, 7],
+           "reader: sign = (src >> 6) & 1, extend = src & 0x80; writer: to_bit(.., %s)" % sorted(set(tb)), w.loc())
+    # at most 5 bytes: reader loop 0..4, writer buffer ArrayVec<[u8; 5]>
+    rng = []
+    for bi in sorted(r.live):
+        for si, st in enumerate(r.blocks[bi]["st"]):
+            if st["k"] == "assign" and st["r"]["k"] == "agg" and (st["r"].get("adt") or "").endswith("ops::Range"):
+                e = rir.rvalue(st["r"], (bi, si))
+                rng.append(tuple(v[1] for n, v in e[4] if v[0] == "c"))
+    buf5 = any("[u8; 5]" in l["ty"] for l in w.locals)
+    rep.ob(rule, "at most five bytes on both sides", (0, 4) in rng and buf5,
+           "read_int iterates %s continuation bytes after the first; write_int buffers in ArrayVec<[u8; 5]>: %s" % (rng, buf5), r.loc())
+
+
+def write_data(prog, rep):
+    rule = "R5-capacity-errors"
+    b = prog.one(P + "Packer::write_data")
+    ir = IR(b)
+    ok = any((t.get("callee") or "").endswith("::try_i32") for _, t in b.calls()) and \
+        not any((t.get("callee") or "").endswith("::assert_i32") for _, t in b.calls())
+    rep.ob(rule, "write_data converts the length with try_i32", ok, "a length above i32::MAX is CapacityError, not a panic", b.loc())
